@@ -93,14 +93,14 @@ theorem rel_mkFilterEager {d d' : DS} {r : RefDS} (f : Val → Res Bool) (h : Re
   | false => simp [hi, throw, throwThe, MonadExceptOf.throw, bind, Except.bind] at hd
   | true =>
     simp only [hi, Bool.not_true, bind, Except.bind] at hd ⊢
-    cases hv : streamToRes d.iter with
-    | error e => simp [hv] at hd
-    | ok vs =>
-      simp only [hv] at hd ⊢
-      cases hx : filterIdx f vs 0 with
-      | error e => simp [hx] at hd
-      | ok idx =>
-        simp only [hx] at hd ⊢
+    cases hx : filterIdx f d.iter.vals 0 with
+    | error e => simp [hx] at hd
+    | ok idx =>
+      simp only [hx] at hd ⊢
+      cases hv : streamToRes d.iter with
+      | error e => simp [hv] at hd
+      | ok vs =>
+        simp only [hv] at hd ⊢
         cases hl : d.len with
         | error e => simp [hl] at hd
         | ok n =>
@@ -114,14 +114,14 @@ theorem wf2_mkFilterEager {r r' : RefDS} (f : Val → Res Bool) (h : RefWF2 r)
   | false => simp [hi, throw, throwThe, MonadExceptOf.throw, bind, Except.bind] at hr
   | true =>
     simp only [hi, Bool.not_true, bind, Except.bind] at hr
-    cases hv : streamToRes r.stream with
-    | error e => simp [hv] at hr
-    | ok vs =>
-      simp only [hv] at hr
-      cases hx : filterIdx f vs 0 with
-      | error e => simp [hx] at hr
-      | ok idx =>
-        simp only [hx] at hr
+    cases hx : filterIdx f r.stream.vals 0 with
+    | error e => simp [hx] at hr
+    | ok idx =>
+      simp only [hx] at hr
+      cases hv : streamToRes r.stream with
+      | error e => simp [hv] at hr
+      | ok vs =>
+        simp only [hv] at hr
         cases hl : r.len with
         | error e => simp [hl] at hr
         | ok n =>
@@ -166,14 +166,14 @@ theorem rel_mkSort {d d' : DS} {r : RefDS} (keyFn : Option (Val → Res Val)) (r
   | some f =>
     simp only [bind, Except.bind] at hd ⊢
     rw [← h.iter]
-    cases hv : streamToRes d.iter with
-    | error e => simp [hv] at hd
-    | ok vs =>
-      simp only [hv] at hd ⊢
-      cases hm : vs.mapM f with
-      | error e => simp [hm] at hd
-      | ok kv =>
-        simp only [hm] at hd ⊢
+    cases hm : d.iter.vals.mapM f with
+    | error e => simp [hm] at hd
+    | ok kv =>
+      simp only [hm] at hd ⊢
+      cases hv : streamToRes d.iter with
+      | error e => simp [hv] at hd
+      | ok vs =>
+        simp only [hv] at hd ⊢
         cases ha : asInts kv with
         | some is =>
           simp only [ha] at hd ⊢
@@ -207,14 +207,14 @@ theorem wf2_mkSort {r r' : RefDS} (keyFn : Option (Val → Res Val)) (rev : Bool
       exact wf2_mkSlice _ h hr
   | some f =>
     simp only [bind, Except.bind] at hr
-    cases hv : streamToRes r.stream with
-    | error e => simp [hv] at hr
-    | ok vs =>
-      simp only [hv] at hr
-      cases hm : vs.mapM f with
-      | error e => simp [hm] at hr
-      | ok kv =>
-        simp only [hm] at hr
+    cases hm : r.stream.vals.mapM f with
+    | error e => simp [hm] at hr
+    | ok kv =>
+      simp only [hm] at hr
+      cases hv : streamToRes r.stream with
+      | error e => simp [hv] at hr
+      | ok vs =>
+        simp only [hv] at hr
         cases ha : asInts kv with
         | some is =>
           simp only [ha] at hr
